@@ -41,15 +41,15 @@ Qed.
    user u of group g, Basic credentials of u (not a server administrator)
    with a password that the NEW stored password does not match are refused *)
 Lemma revoked_password : forall e g u pw p d d',
-  g <> "" -> e_writable e = true ->
+  g <> "" -> e_writable e = true -> e_store_ok e = true ->
   file_lookup e g = Some d -> set_password d u false pw = Some d' ->
   let e' := fst (do_set_password e g u false pw) in
   global_admin_match H e' u p = Some false ->
   pw_match H pw p <> Some true ->
   is_admin H e' g (CBasic u p) = false.
 Proof.
-  intros e g u pw p d d' Hg Hw Hf Hs e' Hm Hp. subst e'.
-  unfold do_set_password in *. rewrite Hf, Hs in *. unfold rewrite_file in *. rewrite Hw in *.
+  intros e g u pw p d d' Hg Hw Hso Hf Hs e' Hm Hp. subst e'.
+  unfold do_set_password in *. rewrite Hf, Hs in *. unfold rewrite_file in *. rewrite Hw, Hso in *.
   cbn [fst] in *.
   rewrite (cred_basic_group H _ g u p Hg Hm), (get_description_after_write e g d' Hg).
   rewrite (password_permission_after_set d u pw d' p Hs).
@@ -59,14 +59,14 @@ Qed.
 (* revoked permissions no longer work: after an accepted PUT of the user's
    definition without "admin", the user is refused whatever password *)
 Lemma revoked_permission : forall e g u nu p d d',
-  g <> "" -> e_writable e = true ->
+  g <> "" -> e_writable e = true -> e_store_ok e = true ->
   file_lookup e g = Some d -> update_user d u false nu = Some d' ->
   mem "admin" (perm_list (Some d') (u_perms nu)) = false ->
   let e' := set_groups e (assoc_set (e_groups e) (clean_name g) d') in
   global_admin_match H e' u p = Some false ->
   is_admin H e' g (CBasic u p) = false.
 Proof.
-  intros e g u nu p d d' Hg Hw Hf Hu Hperm e' Hm. subst e'.
+  intros e g u nu p d d' Hg Hw Hso Hf Hu Hperm e' Hm. subst e'.
   apply (cred_ordinary_user H _ g u p d' false
            {| u_password := match find_user d u false with Some o => u_password o | None => empty_password end;
               u_perms := u_perms nu |}); auto.
